@@ -252,6 +252,31 @@ def softmixer [Inhabited α] (c : Consts) (nearest : Bool) : Mem α → List Voi
   | mem, [] => mem
   | mem, v :: vs => softmixer c nearest (runVoice c nearest mem v).1 vs
 
+/-! ## Where the voice's end points come from: `adjust_voice_end` (src/mixer.c) -/
+
+/-- what `adjust_voice_end` reads of the sample (`xxs`, `xtra`) -/
+structure SmpInfo where
+  loop : Bool := false        -- XMP_SAMPLE_LOOP
+  sloop : Bool := false       -- XMP_SAMPLE_SLOOP
+  loopBidir : Bool := false   -- XMP_SAMPLE_LOOP_BIDIR
+  sloopBidir : Bool := false  -- XMP_SAMPLE_SLOOP_BIDIR
+  loopFull : Bool := false    -- XMP_SAMPLE_LOOP_FULL
+  len : Int := 0
+  lps : Int := 0
+  lpe : Int := 0
+  sus : Int := 0              -- xtra->sus, xtra->sue
+  sue : Int := 0
+  deriving Repr, DecidableEq
+
+/-- `adjust_voice_end(ctx, vi, xxs, xtra)`: the voice end points and `VOICE_BIDIR` for the current loop state.
+`isMod` is `vi->smp < mod->smp` (then and only then `xtra != NULL`), `release` is `VOICE_RELEASE`,
+`sampleLoop` is `SAMPLE_LOOP`. -/
+def adjustVoiceEnd (x : SmpInfo) (isMod release sampleLoop : Bool) : Int × Int × Bool :=
+  if isMod && (isMod && x.sloop && !release) then (x.sus, x.sue, x.sloopBidir)
+  else if x.loop then
+    if x.loopFull && !sampleLoop then (x.lps, x.len, false) else (x.lps, x.lpe, x.loopBidir)
+  else (0, x.len, false)
+
 /-! ## The one legal writer: `update_invloop` (src/player.c), Protracker invert-loop / funk repeat -/
 
 /-- `xc->invloop` -/
